@@ -57,13 +57,13 @@ def same(a, b, tol=0.0):
             return False, 'output %d shape %s vs %s' % (k, u.shape, v.shape)
         if tol == 0.0:
             if not np.array_equal(u, v):
-                idx = tuple(np.argwhere(u != v)[0])
+                idx = tuple(np.argwhere(~(u == v))[0])
                 return False, 'output %d at %s: %r vs %r' % (k, idx, u[idx], v[idx])
         else:
-            sc = max(1.0, float(np.max(np.abs(v))) if v.size else 1.0)
+            sc = max(1.0, float(np.nanmax(np.abs(v))) if v.size and np.isfinite(v).any() else 1.0)
             d = np.abs(u - v)
             if not (d <= tol * sc).all():
-                idx = tuple(np.argwhere(d > tol * sc)[0])
+                idx = tuple(np.argwhere(~(d <= tol * sc))[0])      # NaN compares false both ways
                 return False, 'output %d at %s: %r vs %r (tol %g)' % (k, idx, u[idx], v[idx], tol * sc)
     return True, ''
 
